@@ -72,11 +72,16 @@ func pathTable(c *Ctx, ts tableSpec) ([]string, []string, token.Pos) {
 	}
 	for _, f := range fd.Type.Params.List {
 		for _, n := range f.Names {
-			names = append(names, n.Name)
-			v := unk(n.Name)
+			// parameters are shown by position (p1, p2, …) and the receiver as recv: renaming them changes no row
+			nm := fmt.Sprintf("p%d", len(names)+1)
+			if n.Name == "vm" {
+				nm = "vm" // the handlers' machine parameter keeps the name the stack model uses
+			}
+			names = append(names, nm)
+			v := unk(nm)
 			if tv, ok := se.info.Types[f.Type]; ok {
 				if b, ok := tv.Type.Underlying().(*types.Basic); ok && b.Info()&types.IsInteger != 0 {
-					v = val{kind: vInt, lin: linSym(n.Name)}
+					v = val{kind: vInt, lin: linSym(nm)}
 				}
 			}
 			vals = append(vals, &v)
